@@ -33,6 +33,7 @@ type respCase struct {
 	Cacheable bool   `json:"cacheable"`
 	Path      string `json:"path"`
 	Status    int    `json:"status"`
+	Members   int    `json:"members"`
 
 	body    []byte
 	encoded []byte
@@ -65,12 +66,15 @@ func makeBody(c *respCase, i int) []byte {
 	case "large":
 		n = m + 8192
 	}
+	if c.Ratio == "extreme" {
+		n = 200000
+	}
 	b := make([]byte, n)
 	switch c.Ratio {
 	case "incompressible":
 		rnd := rand.New(rand.NewSource(int64(i) + 17))
 		rnd.Read(b)
-	case "high":
+	case "high", "extreme":
 		for j := range b {
 			b[j] = 'a'
 		}
@@ -152,7 +156,9 @@ func Response(w *world.World, raws []json.RawMessage) ([]interface{}, error) {
 	w.AddHandler("filterplain", server.ServerOption{Cache: "resp", Locations: []string{"loc"}, CompressContentTypeFilter: regexp.MustCompile("plain")})
 	w.AddHandler("min100u", server.ServerOption{Cache: "resp", Locations: []string{"loc"}})
 	w.UpdateHandler("min100u", server.ServerOption{Cache: "resp", Locations: []string{"loc"}, CompressMinLength: 100})
-	compress.Reset([]config.CompressConfig{{Name: "fast", Levels: map[string]uint{"gzip": 1, "br": 1}}})
+	compress.Reset([]config.CompressConfig{{Name: "fast", Levels: map[string]uint{"gzip": 1, "br": 1}},
+		{Name: "lvl10", Levels: map[string]uint{"gzip": 10, "br": 10}}})
+	w.AddHandler("lvl10", server.ServerOption{Cache: "resp", Locations: []string{"loc"}, Compress: "lvl10"})
 	w.AddHandler("fast", server.ServerOption{Cache: "resp", Locations: []string{"loc"}, Compress: "fast"})
 	var opsMu sync.Mutex
 	var ops []compOp
@@ -247,6 +253,13 @@ func Response(w *world.World, raws []json.RawMessage) ([]interface{}, error) {
 			enc, err := refEncode(c.UpEnc, c.body)
 			if err != nil {
 				continue // a class the reference encoder cannot produce: not a case
+			}
+			if c.Members == 2 && c.UpEnc == "gzip" {
+				// two gzip members, one after the other
+				h := len(c.body) / 3
+				m1, _ := refEncode("gzip", c.body[:h])
+				m2, _ := refEncode("gzip", c.body[h:])
+				enc = append(append([]byte{}, m1...), m2...)
 			}
 			c.encoded = enc
 			if c.encoded == nil {
